@@ -9,5 +9,6 @@ CONSTANTS
  PerCont = {}
  MaxExpire = 0
  MaxFire = 0
+ MaxKill = 0
  MaxPad = 0
  Defects = {}
